@@ -261,8 +261,8 @@ func c12Doc(r *mon.Run, doc []byte, trailing bool) (deadPrefix bool) {
 	// order of calls on one Document object: Len() before Check(), Check() twice, NextLexeme to the end before
 	// Check() - the answers must be those of the fresh object above
 	if len(doc) <= 4 || doc[len(doc)/2]%8 == byte(len(doc)%8) {
-		var err2, err3, err4, lerr2, lerr3 error
-		var ln2, ln3 uint
+		var err2, err3, err4, lerr2, lerr3, lerr4 error
+		var ln2, ln3, ln4 uint
 		if p := mon.Guard(func() {
 			d2 := jdoc.FromFile(fs.NewFile("doc", doc), opts...) // the other public constructor
 			ln2, lerr2 = d2.Len()
@@ -276,6 +276,13 @@ func c12Doc(r *mon.Run, doc []byte, trailing bool) (deadPrefix bool) {
 				}
 			}
 			err4 = d3.Check()
+			d4 := jdoc.New("doc", string(doc), opts...) // the first Len() comes after the caller has read every lexeme
+			for i := 0; i <= 2*len(doc)+4; i++ {
+				if _, e := d4.NextLexeme(); e != nil {
+					break
+				}
+			}
+			ln4, lerr4 = d4.Len()
 		}); p != nil {
 			r.Violate("panic", "json.Document(call order)/"+p.Site, fmt.Sprintf("Document Len/Check/NextLexeme in another order (%s) panicked on %q: %s", mode, mon.Trunc(string(doc), 80), p.Value), cs)
 			return false
@@ -290,6 +297,9 @@ func c12Doc(r *mon.Run, doc []byte, trailing bool) (deadPrefix bool) {
 			return false
 		case err == nil && ((lerr2 == nil) != (lerr == nil) || ln2 != ln || (lerr3 == nil) != (lerr == nil) || ln3 != ln):
 			r.Violate("call-order", key, fmt.Sprintf("Document(%s) %q: Len() after Check() = %d (%v); Len() first = %d (%v); Len() again = %d (%v)", mode, mon.Trunc(string(doc), 80), ln, lerr, ln2, lerr2, ln3, lerr3), cs)
+			return false
+		case (lerr4 == nil) != (lerr2 == nil) || ln4 != ln2:
+			r.Violate("call-order", key, fmt.Sprintf("Document(%s) %q: Len() first = %d (%v); first Len() after reading all lexemes from the same object = %d (%v)", mode, mon.Trunc(string(doc), 80), ln2, lerr2, ln4, lerr4), cs)
 			return false
 		}
 	}
